@@ -37,11 +37,16 @@ func newFlatSys(c *vCtx, metric DistanceKind, dim int, nids int) *vFlatSys {
 	if metric == L2Squared {
 		thr = []float32{0, 1, 2, 25, 0.5, 1000}
 	}
-	restr := [][]uint32{nil, {1}, {2, 3}, {9}, {1, 9}, {2, 2, 1}} // the last one names an id twice (a restriction is a set)
+	restr := [][]uint32{nil, {1}, {2, 3}, {9}, {1, 9}, {2, 2, 1}, {1, 3, 3}} // the last two name an id twice (a restriction is a set); {1,3,3} has as many entries as the range 1..3 has ids
 	for _, q := range vQueryAlphabet(dim) {
 		for _, k := range []int{-1, 0, 1, 2, nids, nids + 1, math.MaxInt64} {
-			for _, t := range thr {
-				for _, r := range restr {
+			for ti, t := range thr {
+				for ri, r := range restr {
+					// (the two restrictions with a repeated id: with every k, at the first and
+					// the fourth threshold only - what they add does not depend on the threshold)
+					if ri >= 5 && ti != 0 && ti != 3 {
+						continue
+					}
 					s.qs = append(s.qs, vVecQuery{Q: q, K: k, Thr: t, IDs: r})
 				}
 			}
